@@ -355,7 +355,7 @@ FAMILIES["C03"] = C03
 # ----------------------------------------------------------------- C13
 def _partial_case(world, c, i):
     m = world["modes"][c["mode"] - 1]
-    return dict(id=i, pols=c["pols"], req=m["req"], store=m["store"], completions=m["completions"])
+    return dict(id=i, pols=c["pols"], req=m["req"], store=m["store"], completions=m["completions"], _keep=bool(c.get("keep")))
 
 
 def _mutate_partial(ev):
@@ -370,7 +370,7 @@ def _mutate_partial(ev):
 C13 = dict(
     family="partial", trace_module="Trace_Partial.tla",
     models=[dict(name="mc_partial", module="MC_Partial.tla", cfg=dict(quick="MC_Partial_quick.cfg", thorough="MC_Partial_thorough.cfg"),
-                 cases=_partial_case, limit=dict(quick=1600, thorough=None))],
+                 cases=_partial_case, limit=dict(quick=2000, thorough=None))],
     nontrivial=lambda ev: ev.get("ev") == "Partial",
     key=lambda ev: [ev.get("pols"), ev.get("req")],
     mutate=_mutate_partial, chunk=250,
@@ -628,6 +628,7 @@ C19 = dict(
 FAMILIES["C19"] = C19
 import props_front; C19["models"] += props_front.MODELS; C19["extra_traces"] = props_front.extra_traces(C19.get("extra_traces"))
 C19["models"][0]["setup"] = props_front.remember_world(C19["models"][0]["setup"])
+C19["case_of_event"] = props_front.case_of_event; C19["family_of_event"] = props_front.family_of_event; C19["trace_module_of_event"] = props_front.trace_module_of_event
 C19["rule"] += props_front.RULE; C19["assumptions"] = C19["assumptions"][1:] + props_front.ASSUMPTIONS
 C19["nontrivial"] = lambda ev: ev.get("ev") in ("FfiHist", "Front"); C19["key"] = lambda ev: ev.get("op") or [s.get("op") for s in ev.get("steps", [])]
 import props_c05, props_c12; FAMILIES["C05"] = props_c05.C05; FAMILIES["C12"] = props_c12.C12
